@@ -868,7 +868,7 @@ func (ev *Evaluator) call(n *Node, env *Env) Res {
 			return ok(vFalse)
 		}
 		return r
-	case "upper", "min", "add", "greet", "list":
+	case "upper", "min", "add", "greet", "list", "first", "rest", "vn":
 	default:
 		return fail("unknown-function")
 	}
@@ -893,7 +893,8 @@ func (ev *Evaluator) call(n *Node, env *Env) Res {
 		}
 		args = append(args, rs[i].V)
 	}
-	want := map[string][2]int{"upper": {1, 1}, "min": {0, 1 << 30}, "add": {2, 2}, "greet": {1, 1}, "list": {0, 1 << 30}}[n.Name]
+	want := map[string][2]int{"upper": {1, 1}, "min": {0, 1 << 30}, "add": {2, 2}, "greet": {1, 1}, "list": {0, 1 << 30},
+		"first": {1, 1 << 30}, "rest": {1, 1 << 30}, "vn": {0, 1 << 30}}[n.Name]
 	if len(args) < want[0] || len(args) > want[1] {
 		return fail("argument-count")
 	}
@@ -938,8 +939,15 @@ func (ev *Evaluator) call(n *Node, env *Env) Res {
 			return s
 		}
 		return ok(vStr("Hello, " + s.V.S + "!"))
-	case "list":
+	case "list", "vn":
+		// vn's variadic parameter has the name of a variable of the calling scope: inside the
+		// function the parameter is what the name means
 		return ok(vTuple(args...))
+	case "first":
+		return ok(args[0])
+	case "rest":
+		// its variadic parameter is called like first's positional one: each function binds its own names
+		return ok(vTuple(args[1:]...))
 	}
 	panic("unreachable")
 }
